@@ -62,7 +62,7 @@ class History:
         self._apply_config_class()
         self.events.append({"ev": "init", "files": self._abs_tree(self.tree), "lock": self.abs_lock,
                             "maxid": self.maxid, "label": self.label, "present": self._present_list(), "bad": self._bad_list(),
-                            "base": self.base, "must_fail": self.config_class != "ok"})
+                            "base": self.base, "must_fail": self.config_class != "ok", "opaque": bool(self.opaque)})
         self.last_reports = None
 
     def _norm(self, slots):
@@ -506,6 +506,7 @@ def runtrace(histories_events, max_files=5):
 
 def runtrace_eligible(evs):
     init = evs[0]
-    return (init.get("ev") == "init" and init.get("base", 0) == 0 and not init.get("must_fail") and 1 <= len(init.get("files", [])) <= 5
+    return (init.get("ev") == "init" and init.get("base", 0) == 0 and not init.get("must_fail") and not init.get("opaque")
+            and 1 <= len(init.get("files", [])) <= 5
             and "present" in init and any(len(f) for f in init["files"]) is not None
             and all(e.get("ev") != "start" or "order" in e for e in evs))
